@@ -443,6 +443,68 @@ def rule_r7(F, rep):
     rep.trust("YAML 1.2.2 section 10.3.2 core-schema tag resolution patterns (transcribed)")
 
 
+# --------------------------------------------------------------------------------------------------
+# R8: names reach the document only through an escaper
+
+NAME_SOURCES = ("InternedStr>::value", "<rsjsonnet_lang::interner::InternedStr>::value", "SortedInternedStr>::value")
+TEXT_SINKS = ("<alloc::string::String>::push_str", "core::convert::Into>::into", "core::convert::From>::from",
+              "alloc::borrow::ToOwned>::to_owned", "alloc::string::ToString>::to_string", "<str>::to_owned", "<str>::to_string",
+              "alloc::string::String>::from", "<alloc::string::String>::insert_str")
+SAFE_PREDICATES = (M + "is_safe_yaml_plain", M + "is_safe_toml_plain")
+
+
+def rule_r8(F, rep):
+    from . import prov, cfg
+    R = rep.rule("C05.R8", "in the manifesters a field name (InternedStr::value) is copied into the document only as the result of "
+                 "an escaper (escape_string_json / escape_key_toml / ...) or on the true edge of the format's bare-key predicate; "
+                 "every other piece of text appended is a constant, a caller-supplied separator or an escaper result")
+    n_sinks = 0
+    n_names = 0
+    for fn in F.fn_list:
+        if fn.body is None or not fn.loc or not fn.loc.startswith("rsjsonnet-lang/src/program/eval/manifest.rs"):
+            continue
+        body = fn.body
+        P = None
+        safe_true = []      # true-edge targets of is_safe_* tests
+        for bb, t in body.calls():
+            if (callee_name(t) or "") in SAFE_PREDICATES and t.get("t") is not None:
+                d = t["dst"]["l"]
+                sw = body.term(t["t"])
+                if sw["k"] == "switch" and sw["x"].get("l") == d:
+                    arms = dict(sw["arms"])
+                    tt = sw["else"] if 0 in arms else None
+                    if tt is not None:
+                        safe_true.append(tt)
+        for bb, t in body.calls():
+            n = callee_name(t) or ""
+            if not any(n.endswith(x) or n == x for x in TEXT_SINKS):
+                continue
+            if not t["xs"]:
+                continue
+            if P is None:
+                P = prov.Prov(F, body)
+                rep.fn(fn)
+            n_sinks += 1
+            o = P.origins_op(t["xs"][-1])
+            names = [x for x in o if x and x[0] == "call" and any(str(x[1]).endswith(sfx) or str(x[1]) == sfx for sfx in NAME_SOURCES)]
+            if not names:
+                continue
+            n_names += 1
+            guarded = False
+            for tt in safe_true:
+                seen = cfg.reachable(body.succ_map(), [0], blocked_nodes=[tt])
+                if bb not in seen:
+                    guarded = True
+            rep.ob(R, "%s|bb%d|%s" % (fn.q, bb, n.rsplit("::", 1)[-1]), guarded, {"fn": fn.q, "sink": n, "guarded_by_safe_predicate": guarded})
+            if not guarded:
+                rep.violation(R, "%s|raw-name|%s" % (fn.q, n.rsplit("::", 1)[-1]),
+                              "%s copies a field name into the document with %s without an escaper and outside the true edge of "
+                              "a bare-key predicate: a name containing quotes, dots, brackets or control characters breaks the "
+                              "document (or changes its meaning)" % (fn.q, n), fn.loc)
+    rep.floor(R, n_sinks, 60, "text sinks in the manifesters")
+    rep.floor(R, n_names, 1, "guarded bare-name copies")
+
+
 MANIFESTERS = ["do_manifest_json", "do_manifest_python", "do_manifest_yaml_doc", "do_manifest_toml_value"]
 SIB_EXCEPT = {("do_manifest_toml_value", "Null"): "TOML has no null: manifesting null is an error by specification"}
 
@@ -526,6 +588,7 @@ def run(F, rep, tier):
     c05_flow.run(F, rep)
     rule_r6(F, rep)
     rule_r7(F, rep)
+    rule_r8(F, rep)
     from . import c06
     c06.rule_r3(F, rep)      # numbers reach the document only through Display of the f64 itself
     rep.assume("round-trip equality of emitted documents is value-level and not decided; number text is "
